@@ -66,6 +66,9 @@ def cases(tier, seed, info):
     items.append(dict(kind='dump', data=big, bpl=16, bpc=4))
     items.append(dict(kind='parse', fmt='default', data=big, how='hexdump'))
     items.append(dict(kind='parse', fmt='bmc', data=big, how='upper'))
+    items.append(dict(kind='parse', fmt='bmc', data=_data(rng, 65536 + 16 * rng.randrange(1, 40) + rng.randrange(16)), how='lower'))
+    items.append(dict(kind='file', fmt='bmc', data=_data(rng, 65536 + rng.randrange(1, 300)), how='upper', seed=rng.randrange(1 << 30)))
+    items.append(dict(kind='parse', fmt='pre', data=_data(rng, 65536 + rng.randrange(1, 300)), how='upper'))
     # all byte values in one dump
     items.append(dict(kind='dump', data=list(range(256)), bpl=16, bpc=4))
     items.append(dict(kind='parse', fmt='default', data=list(range(256)), how='hexdump'))
